@@ -10,12 +10,12 @@ TIMEOUT = {"quick": 900, "thorough": 5400}
 RULE = (
     "schedule: every (burn-in b, thin t, count n) of the grid b<=B, t<=T, n<=N run through sampling.sample with a "
     "step-counting harness model whose exported state is tagged with the step counter (the recorded steps are read off "
-    "the result), plus the real SparseDrugCombo with counting wrappers; streams: generator handed to set_rng captured "
+    "the result), plus the real SparseDrugCombo with counting wrappers; large counts (burn-in up to 3000, sample counts up to 4097 for the variational stub) on top of the grid; streams: generator handed to set_rng captured "
     "per (seed, n_chains, chain_index), bit-generator state and first 4096 outputs compared; VI stub. A case is one "
     "sample() call; distinct = its (kind,b,t,n,seed,n_chains,chain) tuple; non-trivial = t>1 or b>0 or n_chains>1"
 )
 ASSUMPTIONS = ["non-overlap of streams is decided on the first 4096 64-bit outputs of each stream (no shared value, no shared window)"]
-REQUIRED = {"schedules_checked": {"quick": 500, "thorough": 2000}, "stream_pairs_checked": {"quick": 200, "thorough": 2000}, "vi_checked": {"quick": 8, "thorough": 50}}
+REQUIRED = {"schedules_checked": {"quick": 500, "thorough": 2000}, "stream_pairs_checked": {"quick": 200, "thorough": 2000}, "vi_checked": {"quick": 40, "thorough": 250}}
 GRID = {"quick": (12, 5, 8), "thorough": (24, 7, 12)}
 
 
@@ -119,6 +119,20 @@ def run_shard(rec, tier, seed, shard, nshards):
             rec.violation("C17/schedule/raises", "sample raised %r" % (e,), w)
             continue
         check_schedule("counting-model", m.log, [th.step for th in res.thetas], b, t, n, res, w)
+    for _ in range(3 if tier == "quick" else 12):
+        b, t, n = int(rng.choice([0, 1, 255, 256, 257, 1000, 3000])), int(rng.choice([1, 2, 7, 64, 100])), int(rng.choice([1, 2, 100, 256, 257, 1000]))
+        if (b + n * t) > 120000:
+            n = max(1, 120000 // t)
+        m = CountingModel()
+        rec.case(("grid-large", b, t, n))
+        w = {"b": b, "t": t, "n": n, "large": True}
+        try:
+            res = sampling.sample(m, ThetaHolder(n_thetas=n), seed=1, n_chains=1, chain_index=0, n_burnin=b, thin=t)
+        except Exception as e:
+            rec.violation("C17/schedule/raises", "sample raised %r" % (e,), w)
+            continue
+        rec.count("large_schedules_checked")
+        check_schedule("counting-model-large", m.log, [th.step for th in res.thetas], b, t, n, res, w)
     if shard == 0:
         m = CountingModel()
         res = sampling.sample(m, ThetaHolder(n_thetas=3), seed=0, n_chains=2, chain_index=1, n_burnin=2, thin=3)
@@ -196,8 +210,8 @@ def run_shard(rec, tier, seed, shard, nshards):
             rec.sample({"kind": "streams", "seed": sd, "n_chains": nch, "first_output_per_chain": [int(o[0]) for o in outs]})
 
     # ---------- (d) VI
-    for _ in range(4 if tier == "quick" else 12):
-        n = int(rng.integers(1, 12))
+    vi_ns = [int(rng.integers(1, 12)) for _ in range(4 if tier == "quick" else 12)] + [int(x) for x in rng.choice([127, 128, 129, 255, 256, 257, 300, 512, 513, 1000, 1025, 4097], size=3 if tier == "quick" else 8, replace=False)]
+    for n in vi_ns:
         m = VIStub()
         holder = ThetaHolder(n_thetas=n)
         rec.case(("vi", n))
